@@ -38,6 +38,10 @@ pub struct Fixture {
     /// genuine datagrams seen in the session: (kind, direction c2s?, bytes)
     pub genuine: Vec<(&'static str, bool, Vec<u8>)>,
     pub valid_request_body: Vec<u8>,
+    /// the connection request of client 2, whose token is in use from client 2's address
+    pub other_request: Vec<u8>,
+    /// the connection request of a client that is half-open from its own address (token bound there, id not connected)
+    pub half_open_request: Vec<u8>,
 }
 
 pub fn fixture() -> Result<Fixture, Violation> {
@@ -49,9 +53,21 @@ pub fn fixture() -> Result<Fixture, Violation> {
     let mut genuine: Vec<(&'static str, bool, Vec<u8>)> = vec![];
     // an untouched second connected client
     let mut c2 = new_client(Duration::ZERO, &t2);
+    let other_request = {
+        let mut c = c2.clone();
+        nc::cli_update(&mut c, Duration::from_millis(250))?.map(|(p, _)| p).unwrap_or_default()
+    };
     if !nc::connect(&mut server, &mut c2, client_addr(2))? {
         return Err(Violation::new("C07/fixture", "handshake of client 2 failed".to_string()));
     }
+    // a fourth client is half-open from its own address throughout
+    let half_open_request = {
+        let t4 = make_token(&TokenSpec::new(4, 44, public.clone()));
+        let mut c4 = new_client(Duration::ZERO, &t4);
+        let r = nc::cli_update(&mut c4, Duration::from_millis(250))?.map(|(p, _)| p).unwrap_or_default();
+        nc::srv_process(&mut server, client_addr(4), &r)?;
+        r
+    };
     let s_unknown = server.clone();
     // client 1: step by step, recording every datagram
     let mut c1 = new_client(Duration::ZERO, &t1);
@@ -136,6 +152,8 @@ pub fn fixture() -> Result<Fixture, Violation> {
             ClientState { name: "disconnected", client: c_disc, follow_up: None, follow_payload: false },
         ],
         valid_request_body: req[1..].to_vec(),
+        other_request,
+        half_open_request,
         genuine,
     })
 }
@@ -224,6 +242,16 @@ pub fn datagrams(fx: &Fixture, tier: Tier) -> Vec<(String, Vec<u8>)> {
         v.push((format!("genuine {} extended by one byte", kind), d));
     }
     // (c) packets of another session / another protocol id
+    if !fx.other_request.is_empty() {
+        // a genuinely sealed, unexpired token that is in use from another address (replayed by someone who saw it)
+        v.push(("connection request of another client whose token is in use from that client's address".into(), fx.other_request.clone()));
+        let mut d = fx.other_request.clone();
+        d.resize(1400, 0);
+        v.push(("the same request padded to 1400 bytes".into(), d));
+    }
+    if !fx.half_open_request.is_empty() {
+        v.push(("connection request of a client that is half-open from another address (token bound there)".into(), fx.half_open_request.clone()));
+    }
     let public = vec![server_addr(0)];
     let t9 = make_token(&TokenSpec::new(9, 99, public));
     v.push(("keep-alive sealed under another session's key".into(), nc::seal(&Packet::KeepAlive { client_index: 0, max_clients: 4 }, PROTOCOL, 5, &t9.client_to_server_key)));
